@@ -133,7 +133,14 @@ def check(ctx: Ctx) -> str:
     ctx.check(ok, "dict:uptodate", "loaders:DictLoader.get_source", "uptodate lambda", "DictLoader's uptodate must compare the captured source with the mapping's current entry (missing -> not equal)", dl.loc())
     pk = repo.func("loaders:PackageLoader.get_source")
     pdefs = [n for n in ast.walk(pk.node) if isinstance(n, ast.FunctionDef) and n is not pk.node]
-    ok = len(pdefs) == 1 and "os.path.isfile(p) and os.path.getmtime(p) == mtime" in ast.unparse(pdefs[0])
+    ok = False
+    if len(pdefs) == 1:
+        for b in [x for x in ast.walk(pdefs[0]) if isinstance(x, ast.BoolOp) and isinstance(x.op, ast.And) and len(x.values) == 2]:
+            a0, a1 = b.values
+            if isinstance(a0, ast.Call) and astq.callee(a0) == "os.path.isfile" and len(a0.args) == 1:
+                pth = ast.unparse(a0.args[0])
+                lc = ast.unparse(a1).replace(" ", "")
+                ok = ok or lc in (f"os.path.getmtime({pth})==mtime", f"mtime==os.path.getmtime({pth})")
     ctx.check(ok, "package:uptodate", "loaders:PackageLoader.get_source", "uptodate closure", "PackageLoader's uptodate must check existence and mtime equality", pk.loc())
 
     ctx.rule("R4", "create_cache: 0 -> no cache, negative -> plain dict, positive -> LRUCache(size); copy_cache mirrors it; overlays and new environments get their own cache")
@@ -155,31 +162,38 @@ def check(ctx: Ctx) -> str:
 
 def _cache_rows(fn: ast.AST) -> dict[str, str]:
     """Abstractly run create_cache for size = 0, -1, 5."""
-    out = {}
-    for label, size in (("zero", 0), ("negative", -1), ("positive", 5)):
-        res = "?"
-        for s in fn.body:  # type: ignore[attr-defined]
+    from ..normalize import norm
+
+    def truth(test: ast.expr, size: int) -> bool | None:
+        if isinstance(test, ast.UnaryOp) and isinstance(test.op, ast.Not):
+            v = truth(test.operand, size)
+            return None if v is None else not v
+        if ast.unparse(test) == "size":
+            return size != 0
+        lc = astq.linear_cmp(test)
+        if lc is not None and set(lc[0]) <= {"size", ""}:
+            lhs = lc[0].get("size", 0) * size + lc[0].get("", 0)
+            return {"<": lhs < 0, "<=": lhs <= 0, ">": lhs > 0, ">=": lhs >= 0, "==": lhs == 0, "!=": lhs != 0}[lc[1]]
+        return None
+
+    def run(body: list[ast.stmt], size: int) -> str | None:
+        for s in body:
             if isinstance(s, ast.Expr) and isinstance(s.value, ast.Constant):
                 continue
+            if isinstance(s, ast.Return):
+                return ast.unparse(s.value) if s.value is not None else "None"
             if isinstance(s, ast.If):
-                lc = astq.linear_cmp(s.test)
-                v = None
-                if lc is not None and set(lc[0]) <= {"size", ""}:
-                    coef = lc[0].get("size", 0)
-                    const = lc[0].get("", 0)
-                    lhs = coef * size + const
-                    v = {"<": lhs < 0, "<=": lhs <= 0, ">": lhs > 0, ">=": lhs >= 0, "==": lhs == 0, "!=": lhs != 0}[lc[1]]
-                elif ast.unparse(s.test) == "not size":
-                    v = size == 0
+                v = truth(s.test, size)
                 if v is None:
-                    return {"error": ast.unparse(s.test)}
-                body = s.body if v else s.orelse
-                r = [x for x in body if isinstance(x, ast.Return)]
-                if r:
-                    res = ast.unparse(r[0].value)
-                    break
-            elif isinstance(s, ast.Return):
-                res = ast.unparse(s.value)
-                break
-        out[label] = res
-    return out
+                    return f"error: {ast.unparse(s.test)}"
+                r = run(s.body if v else s.orelse, size)
+                if r is not None:
+                    return r
+                continue
+            if isinstance(s, ast.Pass):
+                continue
+            return f"error: {ast.unparse(s)[:40]}"
+        return None
+
+    body = norm(fn).body  # type: ignore[attr-defined]  # if/elif/else, early returns and conditional expressions alike
+    return {label: run(body, size) or "?" for label, size in (("zero", 0), ("negative", -1), ("positive", 5))}
